@@ -189,7 +189,41 @@ def oracle(ctx, c, budget):
     return n
 
 
+def statements_sharing_a_file(ctx, scratch):
+    """two redirected statements naming ONE file: the target must receive the lines of both, in stream order (awk semantics, which
+    the documentation refers to); also > in one statement and the same name in another statement of a second put in the chain"""
+    rng = ctx.rng
+    tried = 0
+    for kind in ("print", "tee", "print-two-puts"):
+        l1 = ["".join(rng.choice(VAL) for _ in range(rng.randint(3, 9))) for _ in range(rng.randint(1, 3))]
+        l2 = ["".join(rng.choice(VAL) for _ in range(rng.randint(1, 2))) for _ in range(rng.randint(1, 2))]
+        d = os.path.join(scratch, "share_%s_%d" % (kind.replace("-", "_"), len(os.listdir(scratch))))
+        os.mkdir(d)
+        if kind == "print":
+            prog = "end{" + "".join('print > "f.txt", "%s";' % x for x in l1) + "".join('print > "f.txt", "%s";' % x for x in l2) + "}"
+            args, stdin, want = ["-n", "put", prog], b"", "".join(x + "\n" for x in l1 + l2)
+        elif kind == "tee":
+            prog = 'tee > "f.txt", $*; $y = "%s"; tee > "f.txt", $*' % l1[0]
+            stdin = "".join("x=%s\n" % x for x in l1 + l2).encode()
+            args = ["put", "-q", prog]
+            want = "".join("x=%s\nx=%s,y=%s\n" % (x, x, l1[0]) for x in l1 + l2)
+        else:
+            args = ["-n", "put", 'end{print > "f.txt", "%s"}' % l1[0], "then", "put", 'end{print >> "f.txt", "%s"}' % l2[0]]
+            stdin, want = b"", None            # two expressions, two managers by design: only recorded
+        st, out, err = mlr_run(ctx, args, stdin, timeout=60, cwd=d)
+        pth = os.path.join(d, "f.txt")
+        got = open(pth, "rb").read().decode("latin1") if os.path.exists(pth) else None
+        ctx.count(("statements-sharing-a-file", kind, tuple(l1), tuple(l2)))
+        tried += 1
+        if want is not None and (st != 0 or got != want):
+            ctx.violation({"class": "fanout-two-statements-same-file", "what": "two redirected statements naming one file: the file is not the lines routed to it in stream order",
+                           "input": {"args": args, "stdin": stdin.decode()}, "status": st, "observed": got, "expected": want})
+            break                          # one witness per run
+    return tried
+
+
 def run_writers(ctx, scratch, cap, drive, coq_eval_defs):
+    statements_sharing_a_file(ctx, scratch)
     cases = build(ctx, cap)
     with ctx.timed("impl_writers"):
         drive(ctx, scratch, cases)
